@@ -21,7 +21,8 @@ ASSUMPTIONS = [
 ]
 RULE = ("cases = scripted sequences of BeginCriticalSection/NextFairnessCounter calls from one PRNG (VERIF_SEED): "
         "(a) stable signature, depth 1-5, bounds 1-6, 3*prod attempts; (b) random id/bound/pc changes, prefix-stable or not, "
-        "early exits; (c) malformed (ceiling 0, call without Begin). Non-trivial = at least 2 nested choice points or a "
+        "early exits; (c) malformed (ceiling 0, call without Begin); (d) runloop: a hand-made archetype under the real MPCalContext.Run "
+        "loop (labels that abort, commit back to themselves, or move on) with a recording wrapper around the real counter. Non-trivial = at least 2 nested choice points or a "
         "bound/id change between attempts; distinct by canonical op text.")
 
 
@@ -75,6 +76,88 @@ def gen_malformed(rng):
         else:
             ops.append(["N", "z%d" % rng.randint(0, 2), rng.choice([0, 0, 1, 2, 3])])
     return {"kind": "malformed", "ops": ops}
+
+
+def gen_runloop(rng):
+    """the real Run loop drives the real counter: labels that abort, commit back to themselves, or move on"""
+    labels = ["A.L0", "A.L1", "A.L2"]
+    script = []
+    cur = rng.choice(labels)
+    start = cur
+    for _ in range(rng.randint(1, 4)):
+        depth = rng.randint(1, 3)
+        sig = [["%s.%d" % (cur, i), rng.randint(1, 4)] for i in range(depth)]
+        P = 1
+        for _, c in sig:
+            P *= c
+        stable = rng.random() < 0.7
+        n = min(2 * P + rng.randint(1, 3), 40)
+        for k in range(n):
+            sg = sig
+            if not stable and rng.random() < 0.3:
+                sg = [[i, rng.randint(1, 4)] for i, _ in sig][:rng.randint(1, depth)]
+            script.append({"sig": sg, "action": "abort" if rng.random() < 0.6 else "goto:" + cur})
+        nxt = rng.choice([l for l in labels if l != cur])
+        script.append({"sig": sig, "action": "goto:" + nxt})
+        cur = nxt
+    script.append({"sig": [], "action": "done"})
+    return {"kind": "runloop", "mode": "run", "start": start, "labels": labels, "script": script}
+
+
+def oracle_runloop(case, log, err):
+    """Run calls BeginCriticalSection exactly once per attempt with that attempt's label; choices in range;
+    over consecutive attempts of one label consulting the same choice points, every window of prod(bounds)
+    attempts tries each combination once (commits back to the same label included)"""
+    fails = []
+    if err:
+        return [("runloop-error", "Run ended with %r" % err)]
+    attempts = []   # (label, sig, values)
+    i = 0
+    nB = sum(1 for e in log if e[0] == "B"); nA = sum(1 for e in log if e[0] == "A")
+    if nB != nA:
+        fails.append(("begin-not-once-per-attempt", "%d BeginCriticalSection calls for %d attempts" % (nB, nA)))
+    for j, e in enumerate(log):
+        if e[0] == "A":
+            if j == 0 or log[j - 1][0] != "B" or log[j - 1][1] != e[1]:
+                fails.append(("begin-not-once-per-attempt", "attempt of %s at log position %d not preceded by BeginCriticalSection(%s)" % (e[1], j, e[1])))
+                break
+    cur = None
+    for e in log:
+        if e[0] == "A":
+            cur = [e[1], [], []]; attempts.append(cur)
+        elif e[0] == "N" and cur is not None:
+            cur[1].append((e[1], e[2])); cur[2].append(e[3])
+            if not (0 <= e[3] < e[2]):
+                fails.append(("out-of-range", "choice %s returned %d for bound %d" % (e[1], e[3], e[2])))
+    # runs of consecutive attempts with the same label
+    k = 0
+    while k < len(attempts):
+        m = k
+        while m + 1 < len(attempts) and attempts[m + 1][0] == attempts[k][0]:
+            m += 1
+        run = attempts[k:m + 1]
+        sigs = {tuple(a[1]) for a in run}
+        if len(sigs) == 1 and run[0][1]:
+            P = 1
+            for _, c in run[0][1]:
+                P *= c
+            tup = [tuple(a[2]) for a in run]
+            for a in range(0, len(tup) - P + 1):
+                if len(set(tup[a:a + P])) != P:
+                    fails.append(("window-repeats", "label %s: attempts %d..%d repeat a combination: %s" % (run[0][0], a, a + P - 1, tup[a:a + P])))
+                    break
+        k = m + 1
+    return fails
+
+
+def log_to_ops(log):
+    ops, outs = [], []
+    for e in log:
+        if e[0] == "B":
+            ops.append(["B", e[1]]); outs.append(-1)
+        elif e[0] == "N":
+            ops.append(["N", e[1], e[2]]); outs.append(e[3])
+    return ops, outs
 
 
 def corpus():
@@ -156,16 +239,24 @@ def run(ctx):
         cases = corpus()
         for i in range(n):
             r = rng.random()
-            cases.append(gen_stable(rng) if r < 0.45 else gen_change(rng) if r < 0.9 else gen_malformed(rng))
+            cases.append(gen_stable(rng) if r < 0.35 else gen_change(rng) if r < 0.7 else gen_runloop(rng) if r < 0.9 else gen_malformed(rng))
     for i, c in enumerate(cases):
         c["id"] = i
-    rc, res, err = vlib.run_jsonl("c10", [{"id": c["id"], "ops": c["ops"]} for c in cases])
+    rc, res, err = vlib.run_jsonl("c10", [{k: v for k, v in c.items() if k in ("id", "ops", "mode", "start", "labels", "script")} for c in cases])
     byid = {r["id"]: r for r in res}
     if rc != 0 or len(byid) != len(cases):
         ctx.breaks.append({"what": "harness c10 failed (rc=%d, %d/%d results)" % (rc, len(byid), len(cases)), "detail": err[-2000:]})
         return
     kinds = {}
     for c in cases:
+        if c.get("mode") == "run":
+            r = byid[c["id"]]
+            for sig, what in oracle_runloop(c, r.get("log") or [], r.get("err")):
+                ctx.failures.append({"signature": sig, "what": what, "case": {k: v for k, v in c.items() if not k.startswith("_")}, "obs": r.get("log")})
+            c["ops"], c["_outs"] = log_to_ops(r.get("log") or [])
+            kinds["runloop"] = kinds.get("runloop", 0) + 1
+            ctx.add_case(json.dumps(c["script"]), len(c["script"]) > 3)
+            continue
         outs = byid[c["id"]]["outs"]
         c["_outs"] = outs
         kinds[c.get("kind", "corpus")] = kinds.get(c.get("kind", "corpus"), 0) + 1
@@ -198,7 +289,7 @@ def run(ctx):
                                    "impl": c["_outs"], "model": out2.strip()[-1500:]})
     if ctx.replay:
         print("replay: go outputs", cases[0]["_outs"])
-        print("replay: oracle", oracle(cases[0], cases[0]["_outs"]), "correspondence breaks", len(ctx.breaks))
+        print("replay: failures", [f["what"] for f in ctx.failures], "correspondence breaks", len(ctx.breaks))
 
 MANIFEST = {
     "category": "proof",
